@@ -300,6 +300,11 @@ func init() {
 					// transient failures writing frames, i.e. in the middle of turning decided rounds into blocks
 					cs[i].P["frameerr"] = int64(60 + 40*(i%5))
 				}
+				if i%4 == 0 && cs[i].P["joins"] == 0 && cs[i].P["leaves"] == 0 {
+					// now and then an application's acknowledgement of a block is lost
+					// (static validator sets: a lost answer also loses its receipts)
+					cs[i].P["loseack"] = int64(15 + 10*(i%3))
+				}
 			}
 			soaks := 2
 			if tier == "thorough" {
